@@ -4,7 +4,7 @@
   Tables: the TRANSLATED `Gen.Pruning.{eval_range, eval_range_i32, eval_range_f64, eval_range_str, definite_table, flip_op}`
   (regenerated from src/storage/row_group_pruning.rs on every run).  Recursive functions: the hand model IQE.Engine.Pruning
   (`mightMatch`, `definitelyMatches`, `checkComparison`, `definiteComparison`, `pruneRowGroups`).
-  `Dev.none` = intended algorithm (= the code after proposed_fixes/C05-integer-domain.patch); `Dev.current` = the unchanged tree
+  `Dev.none` = intended algorithm = the current tree (`Dev.current`, since fix e356a0a); `Dev.old` = the tree before it
   (`definiteViaF64`: integer statistics and literal compared after `as f64`; `i32Narrowing`: `i64 as i32` in `check_i32_stats`).
 
   `StatsOf rows rg`: min / max bound every non-NULL value of the column under the column's order, `null_count = 0` is exact,
@@ -81,19 +81,19 @@ def othP0 : List Cell → Option Bool := fun _ => none
 def rgA4 : Rg := [some { stats := .int64 (some 5) (some (2^53 + 1)), nullCount := some 0 }]
 def leP53 : PE := .cmp .LtEq (.col 0) (.lit (.i64 (2^53)))
 
-/-- A.4: x = {5, 2^53+1}; the unchanged tree says `x <= 2^53` is definitely TRUE (filter dropped) and prunes the group for
+/-- A.4: x = {5, 2^53+1}; the tree before fix e356a0a said `x <= 2^53` is definitely TRUE (filter dropped) and prunes the group for
     `NOT (x <= 2^53)`, although the row 2^53+1 fails / satisfies it; the intended algorithm does neither. -/
 theorem C05_witness_definite_f64 :
-    definitelyMatches Dev.current ofIntW rgA4 leP53 = true ∧ sem ofIntW oth0 othP0 [.int (2^53 + 1)] leP53 = some false ∧
-    mightMatch Dev.current ofIntW rgA4 (.not leP53) = false ∧ sem ofIntW oth0 othP0 [.int (2^53 + 1)] (.not leP53) = some true ∧
+    definitelyMatches Dev.old ofIntW rgA4 leP53 = true ∧ sem ofIntW oth0 othP0 [.int (2^53 + 1)] leP53 = some false ∧
+    mightMatch Dev.old ofIntW rgA4 (.not leP53) = false ∧ sem ofIntW oth0 othP0 [.int (2^53 + 1)] (.not leP53) = some true ∧
     definitelyMatches Dev.none ofIntW rgA4 leP53 = false ∧ mightMatch Dev.none ofIntW rgA4 (.not leP53) = true := by decide
 
 def rgI32 : Rg := [some { stats := .int64 (some (2^31)) (some (2^31)), nullCount := some 0 }]
 def gt3 : PE := .cmp .Gt (.col 0) (.lit (.i32 3))
 
-/-- `i64 as i32` narrowing: x = {2^31} is pruned for `x > 3` (Int32 literal) by the unchanged tree. -/
+/-- `i64 as i32` narrowing: x = {2^31} is pruned for `x > 3` (Int32 literal) by the tree before fix e356a0a. -/
 theorem C05_witness_i32_narrowing :
-    mightMatch Dev.current ofIntW rgI32 gt3 = false ∧ sem ofIntW oth0 othP0 [.int (2^31)] gt3 = some true ∧
+    mightMatch Dev.old ofIntW rgI32 gt3 = false ∧ sem ofIntW oth0 othP0 [.int (2^31)] gt3 = some true ∧
     mightMatch Dev.none ofIntW rgI32 gt3 = true := by decide
 
 def fTenth : F64 := ⟨0x3FB999999999999A⟩
@@ -108,6 +108,8 @@ def ltZero : PE := .cmp .Lt (.col 0) (.lit (.f64 F64.posZero))
 theorem C05_witness_nan_and_zero :
     mightMatch Dev.none ofIntW rgNaN gtHalf = false ∧ sem ofIntW oth0 othP0 [.f64 F64.nan] gtHalf = some true ∧
     mightMatch Dev.none ofIntW rgNegZero ltZero = false ∧ sem ofIntW oth0 othP0 [.f64 F64.negZero] ltZero = some true := by decide
+
+theorem C05_current_is_intended : Dev.current = Dev.none := rfl
 
 /-! ### non-vacuity -/
 example : mightMatch Dev.none ofIntW rgA4 (.cmp .Gt (.col 0) (.lit (.i64 (2^53 + 1)))) = false := by decide   -- it does prune
